@@ -34,23 +34,10 @@ def accepts (O : Oracles) (strict : Bool) (d : VarDecl) (v : PyVal) : Option Boo
   if !tyOk then some false
   else if !strict then some true
   else
-    let allowedOk : Option Bool :=
-      match d.allowed with
-      | none => some true
-      | some [] => some true
-      | some l => (coerceAll O d.row l).map fun vs => vs.any (pyEq v)
-    let rangeOk : Option Bool :=
-      if !d.hasRange then some true
-      else match boundOf O d.row d.min, boundOf O d.row d.max with
-        | some lo, some hi =>
-          if (lo.isSome || hi.isSome) && v.num?.isNone then none
-          else some ((match lo with | some m => leVal m v | none => true)
-                     && (match hi with | some m => leVal v m | none => true))
-        | _, _ => none
-    match allowedOk with
-    | none => none
-    | some false => some false
-    | some true => rangeOk
+    match allowedOk O d v, rangeOk O d v with
+    | some false, _ => some false              -- not a member: refused whatever the range says
+    | some true, r => r
+    | none, _ => none
 
 /-- every in-argument is supplied and accepted -/
 def allAccepted (O : Oracles) (strict : Bool) : List ArgDecl → Kwargs → Option Bool
